@@ -93,6 +93,14 @@ def generate(tp: Tape, tier: str):
     case["visualize"] = tp.coin(1, 6)
     names = public_names()
     case["callables"] = tp.sample(names, 12)
+    # argument variants (0-d cubed arrays where the API accepts scalars, mixed python scalars, ...)
+    case["variants"] = [tp.randint(0, 7) for _ in case["callables"]]
+    if tp.coin(1, 3):
+        # functions that accept scalars or arrays in non-leading positions get extra attention
+        hot = [n for n in names if n.split(".", 1)[1] in ("clip", "where", "maximum", "minimum", "add", "multiply", "pow", "full_like")]
+        case["callables"] = case["callables"][:9] + tp.sample(hot, 3)
+        case["variants"] = case["variants"][:9] + [tp.randint(1, 7) for _ in range(3)]
+    case["preexisting_targets"] = tp.coin(1, 2)
     case["eager"] = tp.sample(EAGER, 2)
     # the executor is handed to cubed through Spec(executor=...), which the processes executor would pickle
     case["exec"] = H.exec_cfg_from_tape(tp, kinds=("single", "threads"))
@@ -100,7 +108,7 @@ def generate(tp: Tape, tier: str):
     return case
 
 
-def generic_call(name, spec):
+def generic_call(name, spec, variant=0):
     """Call a public function with generic arguments; returns the (lazy) result or raises."""
     import cubed
     import cubed.array_api as xp
@@ -113,6 +121,7 @@ def generic_call(name, spec):
     j = xp.asarray(np.arange(12).reshape(3, 4) % 3 + 1, chunks=(3, 2), spec=spec)
     m = xp.asarray(np.arange(12).reshape(3, 4) % 2 == 0, chunks=(2, 2), spec=spec)
     v = xp.asarray(np.arange(6.0), chunks=2, spec=spec)
+    rotate = False
     creation = {"full", "ones", "zeros", "empty", "eye", "arange", "linspace", "tril", "triu", "meshgrid",
                 "broadcast_shapes", "result_type", "can_cast", "finfo", "iinfo", "isdtype"}
     if fn in ("broadcast_shapes", "result_type", "can_cast", "finfo", "iinfo", "isdtype"):
@@ -134,8 +143,9 @@ def generic_call(name, spec):
         except (TypeError, ValueError):
             params = []
         table = {
-            "where": [lambda: f(m, a, b)],
-            "clip": [lambda: f(a, 0.5, 1.5)],
+            "where": [lambda: f(m, a, b), lambda: f(m, a, 1.0), lambda: f(m, xp.sum(a), b), lambda: f(a > xp.mean(a), a, b)],
+            "clip": [lambda: f(a, 0.5, 1.5), lambda: f(a, xp.min(b), xp.max(b)), lambda: f(a, b * 0, b),
+                     lambda: f(a, None, xp.max(b)), lambda: f(i, xp.min(j), 7)],
             "concat": [lambda: f([a, a], axis=0)],
             "stack": [lambda: f([a, a])],
             "reshape": [lambda: f(a, (4, 3))],
@@ -163,7 +173,11 @@ def generic_call(name, spec):
             "rechunk": [lambda: f(a, (3, 1))],
             "asarray": [lambda: f(np.arange(4.0), chunks=2, spec=spec)],
             "ones_like": [lambda: f(a)], "zeros_like": [lambda: f(a)], "empty_like": [lambda: f(a)],
-            "full_like": [lambda: f(a, 2.0)],
+            "full_like": [lambda: f(a, 2.0), lambda: f(i, 3)],
+            "maximum": [lambda: f(a, b), lambda: f(a, xp.max(b))], "minimum": [lambda: f(a, b), lambda: f(a, xp.min(b))],
+            "add": [lambda: f(a, b), lambda: f(a, xp.sum(b)), lambda: f(xp.sum(a), xp.sum(b))],
+            "multiply": [lambda: f(a, b), lambda: f(xp.mean(a), b)],
+            "pow": [lambda: f(a, b), lambda: f(a, xp.asarray(2.0, spec=spec))],
             "diff": [lambda: f(a, axis=0)], "cumulative_sum": [lambda: f(a, axis=0)],
             "cumulative_prod": [lambda: f(a, axis=0)], "nancumsum": [lambda: f(a, axis=0)],
             "nancumprod": [lambda: f(a, axis=0)],
@@ -172,12 +186,16 @@ def generic_call(name, spec):
             raise NotImplementedError("take indexes with a cubed array: an eager entry point, exercised separately")
         if fn in table:
             attempts = table[fn]
+            rotate = True
         elif params[:2] == ["x1", "x2"]:
             attempts = [lambda: f(a, b), lambda: f(i, j), lambda: f(m, m)]
         elif params[:1] == ["x"]:
             attempts = [lambda: f(a), lambda: f(i), lambda: f(m), lambda: f(a, axis=0)]
         else:
             raise NotImplementedError(f"no generic arguments for {name}{params[:4]}")
+    if variant and len(attempts) > 1 and rotate:
+        k0 = variant % len(attempts)
+        attempts = attempts[k0:] + attempts[:k0]
     last = None
     for k, att in enumerate(attempts):
         try:
@@ -263,8 +281,8 @@ def execute(case, sched=None):
                 arrays = [built.values[o] for o in case["prog"]["outputs"] if built.values[o] is not None]
                 for d in built.declines:
                     pass
-            for name in case["callables"]:
-                lazy(name, lambda name=name: generic_call(name, spec))
+            for name, var in zip(case["callables"], case.get("variants") or [0] * len(case["callables"])):
+                lazy(name, lambda name=name, var=var: generic_call(name, spec, var))
                 counters["callable_" + name] = 1
             if arrays:
                 a0 = arrays[0]
@@ -280,8 +298,19 @@ def execute(case, sched=None):
                     lazy("visualize", lambda: cubed.visualize(*arrays, filename=scratch + "/v", optimize_graph=og, optimize_function=of))
                     counters["visualize_calls"] = 1
                 if a0.ndim > 0 and a0.size > 0:
+                    t2 = simstore_target(sim, "t2")
+                    if case.get("preexisting_targets"):
+                        # an array of a different geometry already lives at the target location (set-up, untraced)
+                        for tstore, tpath in ((tgt, "lazy/a"), (t2, None)):
+                            tstore.sh.tracing = False
+                            try:
+                                old_ = zarr.create_array(store=tstore, name=tpath, shape=(5, 3), dtype="int16", chunks=(2, 3))
+                                old_[...] = 7
+                            finally:
+                                tstore.sh.tracing = True
+                        counters["lazy_store_onto_existing_array"] = 1
                     lazy("to_zarr lazy", lambda: cubed.to_zarr(a0 + 0 if a0.dtype.kind in "iuf" else a0, tgt, path="lazy/a", compute=False))
-                    lazy("store lazy", lambda: cubed.store([arrays[-1]], [simstore_target(sim, "t2")], compute=False))
+                    lazy("store lazy", lambda: cubed.store([arrays[-1]], [t2], compute=False))
                     lazy("blocks", lambda: a0.blocks[(0,) * a0.ndim])
             # ---- eager entry points: execution must be observed -------------------------
             e_arr = xp.asarray(np.arange(6.0).reshape(2, 3), chunks=(1, 2), spec=spec) + 1.0
